@@ -71,13 +71,13 @@ var (
 func attributeExists(args ...Object) Object {
 	path := args[0]
 
-	return nativeBoolToBooleanObject(path.Type() != ObjectTypeNull)
+	return nativeBoolToBooleanObject(!isUndefined(path))
 }
 
 func attributeNotExists(args ...Object) Object {
 	path := args[0]
 
-	return nativeBoolToBooleanObject(path.Type() == ObjectTypeNull)
+	return nativeBoolToBooleanObject(isUndefined(path))
 }
 
 func attributeType(args ...Object) Object {
@@ -90,7 +90,7 @@ func attributeType(args ...Object) Object {
 			return newError("invalid type %s", strObj.Value)
 		}
 
-		return nativeBoolToBooleanObject(path.Type() == ObjectType(strObj.Value))
+		return nativeBoolToBooleanObject(!isUndefined(path) && path.Type() == ObjectType(strObj.Value))
 	}
 
 	return newError("invalid type %s", typ.Type())
@@ -158,7 +158,7 @@ func objectSize(args ...Object) Object {
 func ifNotExists(args ...Object) Object {
 	obj := args[0]
 
-	if obj == nil || obj.Type() == ObjectTypeNull {
+	if isUndefined(obj) {
 		return args[1]
 	}
 
